@@ -19,7 +19,7 @@ PSHAPES = [(), (1,), (2,), (2, 2), (1, 2), (2, 1, 2)]
 
 
 # ------------------------------------------------------------------ argument specs
-def rand_scalar(rng, complex_ok=False):
+def rand_scalar(rng, complex_ok=False, wide=False):
     r = rng.random()
     if r < 0.3:
         return {"k": "py", "t": "int", "v": rng.choice(INT_POOL["int64"])}
@@ -29,7 +29,7 @@ def rand_scalar(rng, complex_ok=False):
         return {"k": "py", "t": "bool", "v": rng.random() < 0.5}
     if r < 0.5 and complex_ok:
         return {"k": "py", "t": "complex", "v": [rng.choice([-1, 0, 1, 2]), rng.choice([-2, 1])]}
-    t = rng.choice(list(INT_POOL) + ["float32", "float64"])
+    t = rng.choice(["int64", "float64"] if wide else list(INT_POOL) + ["float32", "float64"])
     return {"k": "np", "t": t, "v": rng.choice(INT_POOL.get(t, FLOAT_POOL))}
 
 
@@ -239,7 +239,8 @@ def gen_staged(tier, rng):
         mode = rng.choice(["numeric", "numeric", "polynomial"])
         stage1 = {n: (rand_poly_arg(rng, ["q0", "q1", "q2"], [()]) if mode == "polynomial" and rng.random() < 0.7 else
                       rand_numeric(rng, fam, p_array=0.5 if arrays_in == 1 and mode == "numeric" else 0.0)) for n in first}
-        stage2 = {n: rand_numeric(rng, fam, p_array=0.5 if arrays_in == 2 and mode == "numeric" else 0.0) for n in ["q0", "q1", "q2"]}
+        stage2 = {n: (rand_numeric(rng, fam, p_array=0.5 if arrays_in == 2 and n in names and n not in first else 0.0)
+                      if mode == "numeric" else rand_scalar(rng, wide=True)) for n in ["q0", "q1", "q2"]}   # wide: degree grows
         yield {"p": p, "first": place(rng, names, stage1), "second": stage2, "positional": rng.random() < 0.4}
 
 
@@ -304,21 +305,32 @@ def type_errors(inp):
 
 
 # ------------------------------------------------------------------ large Python ints
-BIG = [2 ** 16 + 1, -70000, 2 ** 31, -2 ** 33, 2 ** 40, 2 ** 62, -2 ** 63, 2 ** 64 + 3, 10 ** 25]
+BIG = [2 ** 16 + 1, -70000, 2 ** 31, -2 ** 33, 2 ** 40, 2 ** 62, -2 ** 63, 2 ** 63 + 5]
+I64 = (-2 ** 63, 2 ** 63 - 1)
 
 
-def gen_bigint(tier, rng):
-    for _ in range(count(tier, 80, 600)):
-        p = rand_poly(rng, shape=rng.choice(PSHAPES[:3]), names=["q0", "q1"][: rng.randint(1, 2)], maxexp=2)
-        row = [{"k": "py", "t": "int", "v": rng.choice(BIG if rng.random() < 0.7 else INT_POOL["int64"])} for _ in p["names"]]
-        yield {"p": p, "args": row}
+def gen_bigint(want_range):
+    """Python int arguments of magnitude > 2**16; `int64`: every term value and the result fit int64, `beyond`: not."""
+    def gen(tier, rng):
+        n = 0
+        while n < count(tier, 60, 500):
+            p = rand_poly(rng, shape=rng.choice(PSHAPES[:3]), names=["q0", "q1"][: rng.randint(1, 2)], maxexp=2)
+            row = [{"k": "py", "t": "int", "v": rng.choice(BIG if rng.random() < 0.7 else INT_POOL["int64"])} for _ in p["names"]]
+            if all(abs(a["v"]) < 2 ** 16 for a in row):
+                continue
+            vals = [a["v"] for a in row]
+            sizes = [int(c) * int(numpy.prod([v ** e for v, e in zip(vals, es)], dtype=object))
+                     for es, cs in zip(p["exponents"], p["coefficients"]) for c in numpy.ravel(cs)]
+            sizes += [v ** max(es[i] for es in p["exponents"]) for i, v in enumerate(vals)]
+            pm = expected(spec_model(p), dict(zip(p["names"], row)))
+            sizes += [int(pm[idx].const_value()) for idx in numpy.ndindex(*pm.shape)]
+            if all(I64[0] <= s <= I64[1] for s in sizes) == (want_range == "int64"):
+                n += 1
+                yield {"p": p, "args": row}
+    return gen
 
 
-@check("C02", "call.python_int_large", gen_bigint, functions=("numpoly.call",),
-       note="bounded: 1-2 indeterminates, exponents<=2, int64 coefficients, Python int arguments of magnitude 2**16 .. 10**25 "
-            "(values and results inside and beyond int64); result must carry the exact value (any integer/object dtype) or, "
-            "for a floating-point result, the value to relative 1e-12")
-def python_int_large(inp):
+def python_int(inp):
     p = build(inp["p"])
     want = expected(spec_model(inp["p"]), dict(zip(inp["p"]["names"], inp["args"])))
     try:
@@ -334,3 +346,13 @@ def python_int_large(inp):
         if abs(g - w) > Fraction(1, 10 ** 12) * abs(w):
             return f"element {idx}: {float(g)!r}, exact value {w}"
     return None
+
+
+check("C02", "call.python_int_large", gen_bigint("int64"), functions=("numpoly.call",),
+      note="bounded: 1-2 indeterminates, exponents<=2, int64 coefficients, Python int arguments of magnitude 2**16 .. 2**63 "
+           "with every power, term value and result inside int64; exact comparison")(python_int)
+
+check("C02", "call.python_int_beyond_int64", gen_bigint("beyond"), functions=("numpoly.call",),
+      note="bounded: as call.python_int_large but some power, term or result lies outside int64; the result must carry the exact "
+           "value (integer or object dtype) or, for a floating-point result, the value to relative 1e-12; no exception, no "
+           "silent wrap-around.  Arguments stay below 2**64 (object-dtype polynomials cannot be used with the 0xA5 poison)")(python_int)
